@@ -383,11 +383,41 @@ func (f *fx) applyCall(ct *callTarget, args []Val, pos token.Pos, resV *ssa.Call
 	if ct.contract == nil {
 		if ct.fn != nil && !isLibraryFn(ct.fn) && smallLoopFree(ct.fn) && f.depth < 3 {
 			f.note("repository function " + ct.key + " has no contract: inlined (small and loop-free)")
-			return f.inline(ct, args, pos)
+			v := f.inline(ct, args, pos)
+			f.recordInlineRet(ct, v, pos)
+			return v
 		}
 		return f.unknownCall(ct, args, pos)
 	}
 	return f.contractCall(ct, args, pos)
+}
+
+// recordInlineRet: lastret("key", i) and siteret("key", site, i) also work for callees that were inlined.
+func (f *fx) recordInlineRet(ct *callTarget, v Val, pos token.Pos) {
+	n := len(resultTypes(ct.fn.Signature))
+	if n == 0 {
+		return
+	}
+	rs := []Val{v}
+	if n > 1 {
+		if v.Kind != vTuple || len(v.Tup) != n {
+			return
+		}
+		rs = v.Tup
+	}
+	for i, r := range rs {
+		if r.Kind != vTerm {
+			return
+		}
+		k := fmt.Sprintf("E:ret:%s:%d", ct.key, i)
+		f.regKey(k, r.T.Sort)
+		f.set(f.cur, k, r.T)
+		if so := f.siteOrdinal(ct.key, pos); so >= 0 {
+			sk := fmt.Sprintf("E:sret:%s#%d:%d", ct.key, so, i)
+			f.regKey(sk, r.T.Sort)
+			f.set(f.cur, sk, r.T)
+		}
+	}
 }
 
 // noLockAcrossCall: calls into the repository (or into user code) must not be made while a lock is held.
